@@ -173,4 +173,28 @@ def initWorld {σ R : Type} (r : R) (calls : List (List (Act σ R) × σ)) : Wor
 def heldReads {σ R : Type} (ts : List (Thread σ R)) (l : Nat) : Nat :=
   (ts.map (fun t => t.heldR.count l)).sum
 
+/-- The read guards a call holds when it has performed `todo` starting with the guards `held` (what
+`stepThread` does to `heldR`, action by action; a panic unwinds: nothing is held afterwards).  A call
+written in Rust releases every guard it takes (RAII, P1): its program has `finalHeld [] prog = []`. -/
+def finalHeld {σ R : Type} : List Nat → List (Act σ R) → List Nat
+  | held, [] => held
+  | held, .acqRead l :: rest => finalHeld (l :: held) rest
+  | held, .relRead l :: rest => finalHeld (held.erase l) rest
+  | _, .panic :: _ => []
+  | held, .acqWrite _ :: rest => finalHeld held rest
+  | held, .relWrite _ :: rest => finalHeld held rest
+  | held, .compute _ :: rest => finalHeld held rest
+
+/-- A request of the service that evaluates (`server/src/server.rs`: `if let Ok(workspace) =
+data.workspace.read() { … evaluate … }`): the workspace lock `ws` is read-acquired, the evaluation
+`p` runs, the guard is dropped. -/
+def evalRequest {σ R : Type} (ws : Nat) (p : List (Act σ R)) : List (Act σ R) := .acqRead ws :: (p ++ [.relRead ws])
+
+/-- Guard accounting: the reader count of every lock is the number of read guards the threads hold
+on it, a call that has ended holds nothing, and every call is on its way to hold nothing. -/
+structure Accounted {σ R : Type} (w : World σ R) : Prop where
+  readers : ∀ l, (w.locks l).readers = heldReads w.threads l
+  endedFree : ∀ t ∈ w.threads, t.ending ≠ .running → t.heldR = []
+  bracketed : ∀ t ∈ w.threads, finalHeld t.heldR t.todo = []
+
 end Dmn.ConcP
